@@ -301,16 +301,23 @@ def run(run):
             run.bad("C04.F3", "celltext-absolute", where(prog.bodies[ap]), "CellText::absolute_position is `%s`" % (expr_str(r[0])[:140] if r else "?"))
     mg = prog.method("merge", r"text::CellText$", "")
     if mg:
-        mex = Expr(prog, mg)
-        somes = []
-        for blk in prog.bodies[mg]["blocks"]:
-            for st in blk["stmts"]:
-                rv = st.get("rv") or {}
-                if rv.get("k") == "agg" and rv.get("variant") == "Some":
-                    somes.append((blk["id"], st))
-        okm = len(somes) == 2
-        for bid, st in somes:
-            e = strip(mex.operand(st["rv"]["ops"][0]))
+        # path-sensitive: on every path that returns Some(..) the result is CellText::new(L.start, L.content ++ R.content)
+        # where L is the run with the smaller start.x according to the comparison passed on that path, and the path
+        # passed can_merge (same row, adjacent columns, F3 above)
+        from ..mirlib import paths as mir_paths
+        ps = mir_paths(prog, mg)
+        okm = bool(ps)
+        n_some = 0
+        cm = prog.method("can_merge", r"text::CellText$", "")
+        for conds, ret in (ps or []):
+            r = strip(ret)
+            if r[0] == "agg" and r[2] == "None":
+                continue
+            if not (r[0] == "agg" and r[2] == "Some"):
+                okm = False
+                continue
+            n_some += 1
+            e = strip(r[3][0][1])
             if not (e[0] == "call" and e[1].endswith("text::CellText::new")):
                 okm = False
                 continue
@@ -321,20 +328,24 @@ def run(run):
                 continue
             first = strip(fp[1][0][1])
             second = strip(fp[1][1][1])
-            # the part whose start is kept comes first
-            if not (start[0] == "param" and first == ("param", start[1], ("content",)) and second[0] == "param" and second[1] != start[1] and second[2] == ("content",)):
+            if not (start[0] == "param" and start[2] == ("start",) and first == ("param", start[1], ("content",)) and second[0] == "param" and second[1] != start[1] and second[2] == ("content",)):
                 okm = False
-            # and it is the one with the smaller start.x
             lt = None
-            for c, tk, sw in guards(prog, mg, bid, direct=True):
+            merged_ok = False
+            for c, tk in conds:
                 c = strip(c)
-                if c[0] == "bin" and c[1] == "Lt":
-                    a, b2 = strip(c[2]), strip(c[3])
-                    if a[0] == "param" and b2[0] == "param" and a[2] == ("start", "x") and b2[2] == ("start", "x"):
-                        smaller = a[1] if tk != 0 else b2[1]
+                if c[0] == "call" and c[1] == cm and tk != 0:
+                    merged_ok = True
+                if c[0] == "bin" and c[1] in ("Lt", "Le", "Gt", "Ge"):
+                    a_, b2 = strip(c[2]), strip(c[3])
+                    if a_[0] == "param" and b2[0] == "param" and a_[2] == ("start", "x") and b2[2] == ("start", "x"):
+                        truth = tk != 0
+                        less_is_first_operand = c[1] in ("Lt", "Le")
+                        smaller = a_[1] if truth == less_is_first_operand else b2[1]
                         lt = smaller == start[1]
-            if lt is not True:
+            if lt is not True or not merged_ok:
                 okm = False
+        okm = okm and n_some >= 1
         if okm:
             run.ok("C04.F3", "CellText::merge keeps the left part's start and concatenates left then right", where(prog.bodies[mg]))
         else:
